@@ -63,6 +63,18 @@ def assemble(dt, t0, tz, rain, z_units, z_first, lead_rain, trail_rain,
         + [[n + i, v] for i, v in enumerate(trail_rain)])
     wl = [[(z_first + k) * dt, u / 8.0]
           for k, u in enumerate(z_units) if (z_first + k) not in removed]
+    fine_removed = (extra or {}).get('fine_removed')
+    if fine_removed is not None:
+        # the logger samples twice per rain step; a missing mid-step reading
+        # is a gap that swallows no grid instant: the two sides are
+        # different data intervals although adjacent on the grid
+        mids = [[(z_first + k) * dt + dt // 2,
+                 (z_units[k] + z_units[k + 1]) / 16.0]
+                for k in range(len(z_units) - 1)
+                if (z_first + k) not in fine_removed
+                and (z_first + k) not in removed
+                and (z_first + k + 1) not in removed]
+        wl = sorted(wl + mids)
     lo = min(rain_rows[0][0], z_first) - 1
     hi = max(rain_rows[-1][0], z_first + len(z_units)) + 2
     et_rows = [[i, et[(i - lo) % len(et)]] for i in range(lo, hi + 1)]
@@ -124,13 +136,20 @@ def free_records(draw, max_steps=30, allow_gaps=True, min_steps=2):
         z.append(z[-1] + inc_units(
             draw, draw(st.sampled_from(inc_w)), thr_units))
     removed = draw(gaps_for(z_first, count)) if allow_gaps else set()
+    fine = None
+    if allow_gaps and draw(st.integers(0, 3)) == 0:
+        removed = set()
+        fine = sorted(set(draw(st.lists(
+            st.integers(z_first, z_first + count - 2), min_size=1,
+            max_size=3))))
     lead = [rain_value(draw, draw(st.sampled_from(rain_w)), s)
             for _ in range(draw(st.sampled_from([0, 0, 2])))]
     trail = [rain_value(draw, draw(st.sampled_from(rain_w)), s)
              for _ in range(draw(st.sampled_from([0, 0, 3])))]
     et = [draw(st.integers(0, 32)) / 64.0 for _ in range(5)]
     return assemble(dt, t0, tz, rain, z, z_first, lead, trail, removed,
-                    et, s, j, {'gen': 'free', 'thr_units': thr_units})
+                    et, s, j, {'gen': 'free', 'thr_units': thr_units,
+                               'fine_removed': fine})
 
 
 EVENTS = ['dry', 'dry', 'storm', 'storm', 'storm-late', 'storm-early',
